@@ -235,7 +235,12 @@ func c07Units(tier string) []*Unit {
 		"cycle-watch-tasks": {Tasks: []*T{{Name: "root", Cmds: []C{{Call: &Ref{Task: "ping", VP: "@"}}}},
 			{Name: "ping", RawLines: []string{"watch: true"}, Cmds: []C{{Call: &Ref{Task: "pong", VP: "@"}}}},
 			{Name: "pong", RawLines: []string{"watch: true"}, Cmds: []C{{Call: &Ref{Task: "ping", VP: "@"}}}}}},
-		"cycle-2-calls": {Tasks: []*T{{Name: "root", Cmds: []C{{Call: &Ref{Task: "a", VP: "@"}}}}, {Name: "a", Cmds: []C{{Call: &Ref{Task: "root", VP: "@"}}}}}},
+		// cycles through deduplicated tasks: the second arrival must not wait for an execution
+		// that is waiting for it
+		"cycle-self-dep-once":        {Tasks: []*T{{Name: "root", Run: "once", Deps: []Ref{{Task: "root", VP: "@"}}, Cmds: []C{P()}}}},
+		"cycle-2-deps-once":          {Tasks: []*T{{Name: "root", Deps: []Ref{{Task: "a", VP: "@"}}, Cmds: []C{P()}}, {Name: "a", Run: "once", Deps: []Ref{{Task: "b", VP: "@"}}}, {Name: "b", Run: "once", Deps: []Ref{{Task: "a", VP: "@"}}}}},
+		"cycle-2-calls-when-changed": {Tasks: []*T{{Name: "root", Cmds: []C{{Call: &Ref{Task: "a", VP: "@"}}}}, {Name: "a", Run: "when_changed", Cmds: []C{{Call: &Ref{Task: "b", VP: "@"}}}}, {Name: "b", Run: "when_changed", Cmds: []C{{Call: &Ref{Task: "a", VP: "@"}}}}}},
+		"cycle-2-calls":              {Tasks: []*T{{Name: "root", Cmds: []C{{Call: &Ref{Task: "a", VP: "@"}}}}, {Name: "a", Cmds: []C{{Call: &Ref{Task: "root", VP: "@"}}}}}},
 	}
 	// a cycle through a wildcard task whose match changes on every round
 	for _, n := range []int{0, 1} {
